@@ -65,7 +65,7 @@ ChildrenLaw(t, c) == LET s == F(t, c).spec
 \* C02: nil=False leaves are the nil=True leaves without the Nones
 NoneLaw(t, c) == LET a == F(t, [c EXCEPT !.nil = FALSE]).leaves
                      b == F(t, [c EXCEPT !.nil = TRUE]).leaves
-                 IN a = SelectSeq(b, LAMBDA x : x # 0)
+                 IN ~PredLeaf(NoneTree, c) => a = SelectSeq(b, LAMBDA x : x # 0)
 \* C02: flattening the leaves obtained under a predicate yields the leaves obtained without it
 PredLaw(t, c) == LET a == F(t, c).leaves
                      parts == [i \in DOMAIN a |-> F(Resolve(a[i], Pool(t)), NoPred(c)).leaves]
@@ -92,6 +92,21 @@ ClassLaw(t, c) == \A s \in SubTrees(t) :
                     /\ s.k = "custom" => (KindOf(s, c) = "custom" <=> Registered(c, s.cls))
                     /\ s.k = "none" => (KindOf(s, c) = "leaf" <=> c.nil)
                     /\ PredLeaf(s, c) => Flatten(s, c).leaves = <<LeafId(s)>>
+
+\* C03: the entry points are separate traversals in the code; in layer D they are all defined from Flatten, so the
+\* model-level content of C03 is (i) the treespec-only walkers agree with the tree walk, (ii) counts, (iii) IsLeaf,
+\* (iv) a single malformed custom node yields the documented error class wherever it sits.
+EntryLaw(t, c) ==
+  LET f == F(t, c) IN
+  IF IsErr(f)
+  THEN /\ HasFault(t)
+       /\ f.err \in {"Runtime", "Type"}
+  ELSE /\ Len(Paths(f.spec)) = Len(f.leaves) /\ Len(TypedPaths(f.spec)) = Len(f.leaves)
+       /\ NumLeaves(f.spec) = Len(f.leaves)
+       /\ (PredLeaf(t, c) \/ KindOf(t, c) = "leaf") <=> (f.leaves = <<LeafId(t)>> /\ f.spec.nodes = <<LeafNode>>)
+       \* a fault below a predicate leaf / unregistered namespace is never reached
+       /\ \A i \in DOMAIN f.leaves : f.leaves[i] = LeafId(Access(t, Paths(f.spec)[i], c))
+InvC03 == Len(stack) = 1 => \A c \in Cfgs : EntryLaw(Top, c)
 
 InvC01 == Len(stack) = 1 => \A c \in Cfgs : RT1(Top, c) /\ RT2(Top, c) /\ RT3(Top, c)
 InvC02 == Len(stack) = 1 => \A c \in Cfgs : NoneLaw(Top, c) /\ PredLaw(Top, c) /\ PermLaw(Top, c) /\ ClassLaw(Top, c)
